@@ -44,7 +44,8 @@ CONSTANTS Streams,    \* stream (client connection) ids, naturals >= 1
           Buf,        \* memdb buffer size (eviction of the oldest beyond it)
           Remap,      \* TRUE: every bolt write has to grow (re-map) the file - bbolt cannot re-map while a
                       \* read transaction (cursor scan) is open, the write waits for all open scans
-          Faults,     \* subset of {"stall","disc","cancel"} the environment may inject
+          Faults,     \* subset of {"stall","disc","cancel","resume"} the environment may inject ("resume": a
+                      \* stalled consumer may start reading again)
           MaxFaults   \* at most this many fault injections per behaviour
 
 VARIABLES head, lo,           \* store
@@ -316,17 +317,23 @@ LiveEnd(s) ==
 (* Environment: the remote consumer                                          *)
 Active(s) == pc[s] \notin {"init", "ended"}
 Fault(s, k) ==
-  /\ k \in Faults /\ nfault < MaxFaults /\ Active(s) /\ cons[s] = "reading" /\ ~ctxd[s]
+  /\ k \in Faults \ {"resume"} /\ nfault < MaxFaults /\ Active(s) /\ cons[s] = "reading" /\ ~ctxd[s]
   /\ nfault' = nfault + 1
   /\ IF k = "cancel" THEN ctxd' = [ctxd EXCEPT ![s] = TRUE] /\ cons' = cons
      ELSE cons' = [cons EXCEPT ![s] = IF k = "stall" THEN "stalled" ELSE "disc"] /\ ctxd' = ctxd
   /\ UNCHANGED <<head, lo, wr, lockW, cbs, ch, q, wk, item, pc, from, cur, snap, pos, sent, phase, err, why>>
 
+\* a stalled consumer starts reading again (the Send that did not return now returns)
+Resume(s) ==
+  /\ "resume" \in Faults /\ cons[s] = "stalled"
+  /\ cons' = [cons EXCEPT ![s] = "reading"]
+  /\ UNCHANGED <<head, lo, wr, lockW, cbs, ch, q, wk, item, pc, from, cur, snap, pos, sent, phase, ctxd, err, why, nfault>>
+
 WriterNext == \E w \in Writers : Store(w) \/ StoreWait(w) \/ RLock(w) \/ DispatchDone(w) \/ \E s \in Streams : DispatchSend(w, s)
 WorkerNext == \E s \in Streams : WorkTake(s) \/ WorkCall(s) \/ WorkExit(s)
 StreamNext == \E s \in Streams : (\E f \in Froms : Open(s, f)) \/ ScanBegin(s) \/ ScanSend(s) \/ Register(s)
                                   \/ RegisterUnblock(s) \/ LiveEnd(s)
-EnvNext == \E s \in Streams, k \in Faults : Fault(s, k)
+EnvNext == \E s \in Streams : Resume(s) \/ \E k \in Faults \ {"resume"} : Fault(s, k)
 SysNext == WriterNext \/ WorkerNext \/ StreamNext
 \* bookkeeping of the history variable, conjoined to every step: a queue grows by at most one item
 \* per step (a dispatched round, or the close pair)
